@@ -779,7 +779,11 @@ type gen struct {
 	w            *world
 	shared       map[int]string // cid -> pin token last tracked
 	draining     int
-	profile      int // 0 mixed, 1 burst (queue pressure), 2 churn on one cid, 3 faulty daemon, 4 recover rounds, 5 noise
+	profile      int // 0 mixed, 1 burst (queue pressure), 2 churn on one cid, 3 faulty daemon, 4 recover rounds, 5 noise, 6 requeue
+	tailQ        []string // the closing actions of a schedule (drain, recover round, drain)
+	tailBudget   int
+	script       []string // actions decided in advance (profile 6 prefix), emitted before anything else
+	scripted     bool
 	hot          int // the cid the churn profile insists on
 	lsFaults     int // percent chance per step that the daemon's reads start failing
 	lsDown       bool
@@ -887,9 +891,88 @@ func (g *gen) instr() string {
 	}
 }
 
+// requeueScript (profile 6): instructions for a cid the daemon ALREADY pins, issued while every pin worker is busy
+// with another cid, so that the new operation waits in the channel: first some cids are pinned and answered, then
+// `workers` other cids are tracked and left parked, then a pinned cid is re-tracked (queued behind them; with a
+// full channel: ErrFullQueue) and untracked / re-tracked again while still queued; the busy calls are answered
+// afterwards. What the daemon holds for such a cid comes from an EARLIER operation: only the operation that the
+// last instruction queues can correct it.
+func (g *gen) requeueScript() []string {
+	r := g.r
+	n, wk := g.w.n, g.w.workers
+	if n < 2 {
+		return nil
+	}
+	nb := wk // cids that keep the workers busy
+	if nb > n-1 {
+		nb = n - 1
+	}
+	perm := make([]int, n)
+	for i := range perm {
+		perm[i] = i
+	}
+	for i := n - 1; i > 0; i-- {
+		j := r.Intn(i + 1)
+		perm[i], perm[j] = perm[j], perm[i]
+	}
+	busy, rest := perm[:nb], perm[nb:]
+	var out []string
+	tok := func(c int) string {
+		m := "r"
+		if r.Chance(1, 3) {
+			m = "d"
+		}
+		k := []string{"h", "h", "e", "g"}[r.Intn(4)]
+		return fmt.Sprintf("%d.%s.%s.%d", c, k, m, r.Intn(3))
+	}
+	track := func(c int) {
+		t := tok(c)
+		if cur, ok := g.shared[c]; ok && r.Chance(1, 2) {
+			t = cur
+		}
+		g.shared[c] = t
+		out = append(out, "t:"+t)
+	}
+	for _, c := range rest { // pinned at the daemon, nothing left in the table
+		if r.Chance(4, 5) {
+			track(c)
+			out = append(out, fmt.Sprintf("k:%d", c))
+		}
+	}
+	for _, c := range busy {
+		track(c)
+	}
+	for _, c := range rest {
+		for j, m := 0, r.Range(1, 3); j < m; j++ {
+			if j%2 == 0 {
+				track(c)
+			}
+			if j%2 == 1 || r.Chance(2, 3) {
+				delete(g.shared, c)
+				out = append(out, fmt.Sprintf("u:%d", c))
+			}
+		}
+	}
+	if r.Chance(1, 2) {
+		for _, c := range busy {
+			out = append(out, fmt.Sprintf("k:%d", c))
+		}
+	}
+	return out
+}
+
 func (g *gen) next() string {
 	r := g.r
 	n := g.w.n
+	if g.profile == 6 && !g.scripted {
+		g.scripted = true
+		g.script = g.requeueScript()
+	}
+	if len(g.script) > 0 {
+		a := g.script[0]
+		g.script = g.script[1:]
+		return a
+	}
 	parked := g.parkedCids()
 	g.w.jitter = r.Intn(4)
 	// a RecoverAll that overlaps other instructions: it reads the pinset (G), instructions and daemon answers follow,
@@ -1034,6 +1117,45 @@ func (g *gen) next() string {
 	}
 }
 
+// tailActs is called after the last action so far: it queues the next closing action and returns how many it queued.
+// *phase 2: drain before the recover round, 1: drain after it, 0: finished.
+func (g *gen) tailActs(phase *int) int {
+	r := g.r
+	if g.tailBudget == 0 {
+		g.tailBudget = 24
+	}
+	if g.tailBudget <= 1 {
+		*phase = 0
+		return 0
+	}
+	g.tailBudget--
+	if g.lsDown {
+		g.lsDown = false
+		g.tailQ = append(g.tailQ, "F:0")
+		return 1
+	}
+	if g.stalePending {
+		g.stalePending = false
+		g.tailQ = append(g.tailQ, "Rs")
+		return 1
+	}
+	if parked := g.parkedCids(); len(parked) > 0 {
+		c := parked[r.Intn(len(parked))]
+		d := "k"
+		if *phase == 2 && r.Chance(1, 8) {
+			d = "x"
+		}
+		g.tailQ = append(g.tailQ, fmt.Sprintf("%s%s:%d", d, g.sel(c), c))
+		return 1
+	}
+	*phase--
+	if *phase == 1 {
+		g.tailQ = append(g.tailQ, "R")
+		return 1
+	}
+	return 0
+}
+
 // runSchedule executes a schedule; acts == nil means generate `length` actions with r.
 func runSchedule(cap, workers, n int, acts []string, r *common.Rng, length int, wait time.Duration) (string, bool) {
 	w := newWorld(cap, workers, n)
@@ -1045,7 +1167,7 @@ func runSchedule(cap, workers, n int, acts []string, r *common.Rng, length int, 
 	var done []string
 	g := &gen{r: r, w: w, shared: map[int]string{}}
 	if r != nil {
-		g.profile = []int{0, 0, 0, 1, 1, 2, 2, 3, 4, 4, 5}[r.Intn(11)]
+		g.profile = []int{0, 0, 0, 1, 1, 2, 2, 3, 4, 4, 5, 6, 6}[r.Intn(13)]
 		g.hot = r.Intn(n)
 		g.lsFaults = []int{0, 0, 2, 4, 10}[r.Intn(5)]
 		g.overlap = []int{0, 0, 0, 0, 3, 6}[r.Intn(6)]
@@ -1054,13 +1176,20 @@ func runSchedule(cap, workers, n int, acts []string, r *common.Rng, length int, 
 		}
 	}
 	total := len(acts)
+	tail := 0
 	if acts == nil {
 		total = length
+		if length > 3 && r.Chance(3, 4) {
+			tail = 2
+		}
 	}
 	for i := 0; i < total; i++ {
 		var a string
 		if acts != nil {
 			a = acts[i]
+		} else if len(g.tailQ) > 0 {
+			a = g.tailQ[0]
+			g.tailQ = g.tailQ[1:]
 		} else {
 			a = g.next()
 		}
@@ -1072,6 +1201,13 @@ func runSchedule(cap, workers, n int, acts []string, r *common.Rng, length int, 
 		groups = append(groups, ret+" "+w.obs())
 		if w.settleFail {
 			return "no stable point after " + a, false
+		}
+		// generated schedules mostly stop with calls still parked, where the first two sentences of the property say
+		// nothing: most of them get a tail that answers every parked call (nil, sometimes an error) until nothing is
+		// parked — a quiescent point, judged by `quiescent_match_or_error` — then a RecoverAll and the same again
+		// (`recover_heals`).
+		if acts == nil && i == total-1 && tail > 0 {
+			total += g.tailActs(&tail)
 		}
 	}
 	return fmt.Sprintf("C05 q=%d w=%d n=%d %s => %s", cap, workers, n, strings.Join(done, " "), strings.Join(groups, " | ")), true
